@@ -26,6 +26,9 @@ document): for every `FDoc` the encoder accepts (`encodeWithF d = .ok (some g, n
 * `C16enc_pict`          the picture group of figure `j`: blip word of the format of its suffix, payload `hexLines bytes_j`
                          whose reader-side decoding is the file's bytes, `\picw\pich` from the header or the 96-dpi
                          fallback, `\picwgoal\pichgoal = ⌊roundDouble (inches · 1440)⌋`;
+* `C16enc_pict_depends_only_on_position`  locality: the picture group of a position is a function of the format, bytes,
+                         width and height of that position alone (two positions agreeing in these carry the same group;
+                         nothing else listed, in particular no other occurrence of the same file, enters);
 * `C16enc_pict_group`    how the picture is written: `\q? {\pict\<fmt>blip\picwN\pichN\picwgoalN\pichgoalN <hex lines>}`;
 * `C16enc_goal_*`        the goal in doubles vs. the floor of the exact product (`Props.C16.C16_goal_floor`): equal or one
                          more; equal whenever the exact product is further than `q / 2^53` below the next integer
@@ -158,6 +161,30 @@ theorem C16enc_pict (d : FDoc) (picts : List Pict) (hP : PictsOf d picts) (j : N
   · intro hb
     rw [Proofs.EncodeFigure.pictOf_payload]
     exact Props.C16.C16_hex_roundtrip f.bytes hb
+
+/-- **locality**: the picture group of a position depends on the format, the bytes, the width and the height of THAT
+position only — not on what else is listed, not on whether the same file (path) stands at another position, not on the
+number of figures.  Two positions, of one document (`d' = d`) or of two, that agree in these four carry the same picture
+`p`; with the same `fig_align` the blocks written for it are identical.  (So a file listed twice with different sizes is
+written twice, differently; a memo of picture groups under the path is not an instance of this model —
+`Props.C16pos.C16_path_memo_not_positional`.) -/
+theorem C16enc_pict_depends_only_on_position (d d' : FDoc) (picts picts' : List Pict) (hP : PictsOf d picts)
+    (hP' : PictsOf d' picts') (j j' : Nat) (f f' : FigFile) (hf : d.figs[j]? = some f) (hf' : d'.figs[j']? = some f')
+    (hfmt : fmtOfSuffix f.suffix = fmtOfSuffix f'.suffix) (hbytes : f.bytes = f'.bytes)
+    (hw : getDim d.widths j = getDim d'.widths j') (hh : getDim d.heights j = getDim d'.heights j') :
+    ∃ p, picts[j]? = some p ∧ picts'[j']? = some p ∧
+      (d.align = d'.align → renderPiece d (.pict p) = renderPiece d' (.pict p)) := by
+  obtain ⟨fmt, w, h, e1, e2, e3, e4⟩ := hP.each j f hf
+  obtain ⟨fmt', w', h', e1', e2', e3', e4'⟩ := hP'.each j' f' hf'
+  rw [hfmt, e1'] at e1
+  rw [hw, e2'] at e2
+  rw [hh, e3'] at e3
+  injection e1 with e1
+  injection e2 with e2
+  injection e3 with e3
+  subst e1 e2 e3
+  refine ⟨_, e4, by rw [e4', hbytes], fun ha => ?_⟩
+  rw [C16enc_pict_group, C16enc_pict_group, ha]
 
 /-- pixel size when the file's header is valid for the format of its suffix and states `t` -/
 theorem C16enc_pixels_from_header (sfx : List Char) (fmt : Model.Figure.Fmt) (bytes : List Nat) (t : Nat × Nat)
